@@ -110,6 +110,10 @@ where
                             text_element_role,
                         ));
                     }
+                } else if text_element_role == TextElementPosition::LineStart
+                    && termination_reason == TextElementTermination::PlaceableStart
+                {
+                    common_indent = Some(common_indent.map_or(indent, |c| c.min(indent)));
                 }
 
                 text_element_role = match termination_reason {
